@@ -311,7 +311,13 @@ func checkProp(p *Prop, tier, onlyRun string, keepLogs, trace, validate bool) in
 	violations := 0
 	exit := 0
 	knownPrinted := map[string]bool{}
+	completed := 0
 	for _, r := range results {
+		if r.Aborted {
+			fmt.Printf("NOTE property=%s run %s exceeded its time budget (%ds): its bound is not covered by this run of the check\n", p.ID, r.Cfg.Name, r.Cfg.BudgetSec)
+			continue
+		}
+		completed++
 		for _, m := range r.Inconcl {
 			inconcl = append(inconcl, r.Cfg.Name+": "+m)
 		}
@@ -363,6 +369,9 @@ func checkProp(p *Prop, tier, onlyRun string, keepLogs, trace, validate bool) in
 				inconcl = append(inconcl, fmt.Sprintf("%s: solver counterexample for %s did not reproduce natively (replay kept at %s)", r.Cfg.Name, desc, dir))
 			}
 		}
+	}
+	if completed == 0 {
+		inconcl = append(inconcl, "no run completed within its time budget")
 	}
 	// translator validation
 	validated, valTried := 0, 0
